@@ -28,7 +28,7 @@ B63 = 2 ** 63
 B64 = 2 ** 64
 
 RULE = ("exhaustive block: every 2-node networkx graph with one property whose value per node ranges over {absent, True, False, 0, 7, "
-        "2^63, 2^64-1, 1.5, 'a', '', [1,2], [3], [[1,2]], [1.5]} (all 196 pairs) x directed/undirected x reader {networkx, rustworkx} and the "
+        "2^63, 2^64-1, 1.5, 'a', '', [1,2], [3], [[1,2]], [1.5], [2^63, 2^64-1], []} (all 256 pairs) x directed/undirected x reader {networkx, rustworkx} and the "
         "same column as an edge property; thorough adds the 3-node block over 9 values (729 columns); random attribute graphs (N<=6; ids "
         "from {0, small, 2^63-1, 2^63, 2^63+k, 2^64-1}; edges incl. both orientations and self loops; per property a column kind in {bool, int, "
         "int beyond int64, float, str, fixed list rank 1/2 of bool/int/float/str, ragged lists, ragged with mixed rank / empty lists, "
@@ -37,19 +37,37 @@ RULE = ("exhaustive block: every 2-node networkx graph with one property whose v
         "metadata- or argument-supplied axis names) x reader {read_to_memory, networkx, rustworkx, spatial-graph} x zarr_format {2,3}; "
         "in-memory geffs (every id dtype, masks, var-length, float16/32, duplicate ids, edges to unknown nodes, no axes) x construct "
         "through the three backends; malformed stream: negative ids, ids >= 2^64, duplicate axis names, axis names that are no "
-        "property, axes with missing values, ndims mismatch; non-trivial = at least one node and one property; distinct by structural input")
-EXHAUSTIVE_BLOCKS = ["networkx N=2 x one node property, per-node value over 14 choices incl. absent (196 columns) x directed {T,F} x reader "
-                     "{networkx, rustworkx} ; the same 196 columns as an edge property on a 3-node path (reader networkx)",
+        "property, axes with missing values, ndims mismatch; audit streams: lists / ragged lists of ints in [2^63, 2^64), all-empty-list columns, "
+        "floats that are multiples of 2^-10 but not float32-exact; oracle-only values (0.1, 1e-7, 2^-30, 1/3, 1e300, 5e-324, NaN, +-inf, strings with "
+        "trailing / inner NUL, numpy scalars and ndarrays of several dtypes as attribute values); rustworkx multigraphs (parallel edges, both "
+        "orientations undirected) and in-memory geffs with a repeated edge; 44 property names and 7 name sets on nodes and on edges under both zarr "
+        "formats (reserved member names, '/', '\\', '.', '..', '', control characters, 300 characters); int8 / uint8 vector attributes and an "
+        "int8 position through spatial-graph (negative control); one random graph in eight is written to a directory path instead of a store object; "
+        "non-trivial = at least one node and one property; distinct by structural input")
+EXHAUSTIVE_BLOCKS = ["networkx N=2 x one node property, per-node value over 16 choices incl. absent (256 columns) x directed {T,F} x reader "
+                     "{networkx, rustworkx} ; the same 256 columns as an edge property on a 3-node path (reader networkx)",
                      "thorough: networkx N=3 x one node property over 9 choices (729 columns), reader networkx, zarr 3"]
 ASSUMPTIONS = [
     "graph-library containers are modelled by their observable API: the harness reads node / edge iteration order and payloads off the "
     "real object and hands that to the model; networkx adjacency order, rustworkx index allocation and spatial_graph's C++ storage are trusted",
     "attribute values in the correspondence are Python bool/int/float/str and nested lists (numpy arrays / numpy scalars as attribute "
-    "values are oracle-only); floats are exact multiples of 2^-10; ints lie in [-2^63, 2^64)",
+    "values are generated and oracle-only); floats in the correspondence are exact multiples of 2^-10 (others, NaN and +-inf are generated "
+    "and oracle-only); ints lie in [-2^63, 2^64); strings ending in NUL are interned as token(stripped) + k*2^32 and are oracle-only "
+    "(open finding str-trailing-nul-stripped: the theorems carry the hypothesis)",
     "mixed-kind columns (int with float, bool with int) are outside the claim (a column has one dtype) -- the oracle skips them, the "
     "correspondence still compares them; numbers mixed with strings are outside the model as well",
-    "property names are the ones zarr accepts as member names; the set order of the collected names is irrelevant (dict semantics)",
-    "spatial-graph domain: >= 1 axis, int8..uint64 / float32 / float64 scalar or vector attributes on every element, no property "
+    "property names: the theorems carry Names.name_ok (one path segment, no reserved member name of either zarr format); name_ok_fmt is "
+    "tied to the real write per format (IName cases), names with control characters are oracle-only; the set order of the collected names "
+    "is irrelevant (dict semantics)",
+    "no edge twice is a hypothesis of every networkx / agreement statement (networkx graphs are simple graphs); on repeated edges the oracle "
+    "checks what each backend alone promises: rustworkx keeps every parallel edge in order, networkx keeps one edge per key with, per "
+    "property, the value of the last occurrence that carries it; the RxGraphAdapter cannot address parallel edges (get_edge_data(u, v)), "
+    "so the edges of a multigraph are read off weighted_edge_list()",
+    "networkx node order is insertion order; networkx edge order is the adjacency order (EdgeView / OutEdgeView), computed in Coq from the "
+    "model's insertion-ordered tables (Corr/C03.nx_edges_view) and compared position by position",
+    "spatial-graph domain: >= 1 axis, int8..uint64 / float32 / float64 scalar attributes and int16..uint64 / float32 / float64 vector "
+    "attributes on every element (int8 / uint8 VECTORS and an 8-bit position come back from spatial_graph as a bytes scalar: open finding "
+    "sg-8bit-vector-read-as-bytes, generated as a negative control), no property "
     "called like position_attr, axis properties of one dtype (they are squished into one position array); outside it the oracle is silent",
     "fresh MemoryStore targets only (existing targets / overwrite are C06); metadata other than directed / axes names is an opaque token",
 ]
@@ -1776,7 +1794,7 @@ def case(writer, reader, fmt=2, pos="position", **kw):
     return {"kind": "construct" if writer["lib"] == "mem" else "rt", "writer": writer, "reader": reader, "fmt": fmt, "pos": pos, **kw}
 
 
-EXH_VALUES = [None, True, False, 0, 7, B63, B64 - 1, 1.5, "a", "", [1, 2], [3], [[1, 2]], [1.5]]
+EXH_VALUES = [None, True, False, 0, 7, B63, B64 - 1, 1.5, "a", "", [1, 2], [3], [[1, 2]], [1.5], [B63, B64 - 1], []]
 EXH3_VALUES = [None, True, 0, B63, 1.5, "a", [1, 2], [3], [1.5]]
 
 
